@@ -53,7 +53,7 @@ def charAt (name : Name) (i : Nat) : Out UInt8 :=
   | none => if i = name.length then .val 0 else .ub .outOfBounds
 
 /-- `size_t` is 64 bits on the modelled platform (`pathLength - K` wraps below K). -/
-def sizeMod : Nat := 2 ^ 64
+def sizeMod : Nat := 18446744073709551616   -- 2^64
 
 /-- the digit loop: `for (i = start; i OP bound; i++) if (cond(path[i])) {flag = false; break;}`;
     result `true` = the condition fired.  Fuel `name.length + 2` always suffices because an
